@@ -76,7 +76,7 @@ CLAIMED["C07"] = {
 CLAIMED["C08"] = {
   "text": "Lean 4: in every state of the model (reachable or not — i.e. wherever every other thread, or the thread a handler interrupted, is paused) and under every environment choice a thread with work left has an enabled step (no operation of send/recv waits on another thread); enqueue finds room on every well-formed non-full queue (complete enumeration). Tied to /repo by the lock-step channel correspondence with sends nested at every step of a send/recv on the same thread, panic detection, per-operation own-step bound 7 + 2 x failed CAS on the implementation trace, and the unscheduled stress search with a real signal handler.",
   "design_ref": "DESIGN.md section 6 C08",
-  "note": _CH_NOTE + " C08_never_panics: neither expect() is reachable from any reachable state (enqueue's relaxed loads can only return queue values that lack the owner's index; recv finds its payload), C08_progress_without_panic.",
+  "note": _CH_NOTE + " C08_never_panics: neither expect() is reachable from any reachable state (enqueue's relaxed loads can only return queue values that lack the owner's index; recv finds its payload), C08_progress_without_panic. A scenario in which an operation does not return within the step budget is reported with its schedule (the executor leaves the process instead of letting the stuck threads run on).",
   "technique": "Lean 4 no-panic theorem for all reachable states (inductive invariant) + enabledness lemma for all states; lock-step correspondence with nested sends; stress search",
 }
 
@@ -84,13 +84,13 @@ _IT_NOTE = "Trusted: Lean kernel + audited axioms; SC for `closed` and the Signa
 CLAIMED["C09"] = {
   "text": "Machine-checked inductive invariant on the iterator model L8 (any number of delivery and close threads, one consumer of either front-end family, any pipe capacity > 0 and initial fill, every interleaving): a delivered signal whose wake-up has completed is either announced by a byte in the pipe, or the instance is closed, or the consumer is at a point from which it compare-exchanges that signal's slot before it can block or answer Pending. Corollaries: while open, a consumer blocked in its blocking read with an empty pipe, or at/after a non-blocking callback that found nothing, or parked as Pending with an exhausted iterator, has no delivered-and-woken signal unreported; a scan reaching a set slot yields it; store precedes wake. Tied to /repo by lock-step execution of the real SignalDelivery/SignalIterator (real dispatcher + real action, callbacks as scheduling points, optionally pre-filled pipe) against L8 and a lost-wake-up monitor on the implementation trace.",
   "design_ref": "DESIGN.md section 6 C09",
-  "note": _IT_NOTE + " Liveness ('obtains the signal') is proved in the safety form above (never stranded) plus the scan lemma, not as a temporal statement. The front ends themselves (Signals::pending/wait/forever with its has_signals loop, signal-hook-mio under a real mio::Poll, the tokio and async-std streams with a flag waker) are driven by real raise() in forked children and compared with L8 run sequentially (driver mode frontends), bursts around the 16-byte and 1024-byte chunk sizes included.",
+  "note": _IT_NOTE + " Liveness ('obtains the signal') is proved in the safety form above (never stranded) plus the scan lemma, not as a temporal statement. The front ends themselves (Signals::pending/wait/forever with its has_signals loop, signal-hook-mio under a real mio::Poll, the tokio and async-std streams with a flag waker) are driven by real raise() in forked children and compared with L8 run sequentially (driver mode frontends), bursts around the 16-byte and 1024-byte chunk sizes included. Queueing exfiltrators (WithRawSiginfo / WithOrigin): model L8q (Model/IterQ.lean: one SLOTS-deep FIFO per signal, two-step send and recv, a record dropped exactly when all indexes of its channel are queued or held) with the inductive invariant WakeQ and theorems C09_queue_never_stranded / C09_queue_parked_pending for every reachable state (Props/C09q.lean), run in lock-step with the real back end at the level of channel operation halves.",
   "technique": "Lean 4 inductive invariant over an N-thread step machine + lock-step model/implementation correspondence",
 }
 CLAIMED["C10"] = {
   "text": "Machine-checked counting invariant on L8 for every reachable state of every interleaving and every consumer front-end, also after close: for each signal number, yields so far plus the possibly pending slot never exceed the slot stores (deliveries begun) so far; every yielded number is a watched one when only watched signals have the instance's action. Tied to /repo by the lock-step iterator correspondence and a per-signal counting / slot-index monitor on the implementation trace; for the info-carrying exfiltrators the per-signal record queue is the Channel of C06/C07 (faithful copy, at most one record per delivery, delivery order) exercised by the channel checks.",
   "design_ref": "DESIGN.md section 6 C10",
-  "note": _IT_NOTE + " The WithRawSiginfo/WithOrigin paths are covered through the channel model and the C17 real-delivery probes, not by a dedicated L8 instance. Scenarios in which two or three batches (Pending) of one instance are drained concurrently by different threads are part of the lock-step runs.",
+  "note": _IT_NOTE + " The WithRawSiginfo/WithOrigin paths are covered through the channel model and the C17 real-delivery probes, not by a dedicated L8 instance. Scenarios in which two or three batches (Pending) of one instance are drained concurrently by different threads are part of the lock-step runs. L8q (Props/C10q.lean), every reachable state with one consumer, any number of delivering threads and bursts of any length: C10_queue_records_in_order (per signal, the records handed out are an initial segment of the records queued, in queueing order), C10_queue_each_once, C10_queue_records_are_deliveries, C10_queue_capacity, C10_drop_only_when_full; the real back end with WithRawSiginfo runs in lock-step with L8q and every handed-out record is compared byte for byte (128 bytes) with what its delivery carried.",
   "technique": "Lean 4 inductive counting invariant + lock-step correspondence",
 }
 CLAIMED["C11"] = {
@@ -104,7 +104,7 @@ _EN_NOTE = "Trusted: Lean kernel + audited axioms; extractor (FORBIDDEN list, sh
 CLAIMED["C12"] = {
   "text": "Lean 4 theorems on the instance model L10 with the source's current shape (generated flags): for every registry state, every instance state (also a poisoned one), every number in Int and both exfiltrator kinds, a rejected add_signal leaves everything observable of the registry (C05's abstraction) and the instance's watched set and ids unchanged; re-adding a watched signal is a literal no-op; neither add_signal, drop nor a failing constructor can abort; drop never panics and removes exactly the instance's own ids from every signal's action list (nobody else's); kernel-checked witnesses that the two shapes before the fix: commits violate this (wedged instance + leaked registrations; retry panic). Tied to /repo by the regenerated shape flags, by random forked histories on the real Signals / SignalsInfo<WithRawSiginfo> (new / add on instance and handle clones / check by real raise / drop / usable) compared with the model and judged by the property monitor, and by scheduled scenarios in which handle clones add the same signals concurrently followed by a leak probe after dropping everything.",
   "design_ref": "DESIGN.md section 6 C12, section 7.2, 7.3",
-  "note": _EN_NOTE + " Two genuine defects found by this check were repaired (fix: bd23c21, c523b70; known_findings.json). Concurrent add_signal is covered by the correspondence / leak probe, not by a theorem (the L10 model is sequential).",
+  "note": _EN_NOTE + " Two genuine defects found by this check were repaired (fix: bd23c21, c523b70; known_findings.json). Concurrent add_signal is covered by the correspondence / leak probe, not by a theorem (the L10 model is sequential). Histories in which the instance is dropped before its handles, a surviving handle keeps adding signals, and the handles go last are part of the differential runs.",
   "technique": "Lean 4 theorems over a sequential instance model with generated shape flags + forked differential histories + scheduled concurrent-add leak probe",
 }
 CLAIMED["C14"] = {
